@@ -309,12 +309,44 @@ func (te *TypeEnv) SliceMake(T types.Type, arr, ln, cp, isnil Term) Term {
 	s := te.SortOf(T)
 	return mk(s, "mk_"+s, arr, ln, cp, isnil)
 }
+// mkParts: the components of a literally constructed slice value
+// "(mk_S arr len cap nil)", so that accessors applied to it simplify.
+func mkParts(s Term) []string {
+	pre := "(mk_" + s.Sort + " "
+	if !strings.HasPrefix(s.S, pre) || !strings.HasSuffix(s.S, ")") {
+		return nil
+	}
+	parts := splitTopLevel(s.S[1 : len(s.S)-1])
+	if len(parts) != 5 {
+		return nil
+	}
+	return parts
+}
+
 func sliceArr(s Term) Term {
+	if p := mkParts(s); p != nil {
+		return Term{p[1], sliceArrSort[s.Sort]}
+	}
 	return Term{"(arr_" + s.Sort + " " + s.S + ")", sliceArrSort[s.Sort]}
 }
-func sliceLen(s Term) Term { return Term{"(len_" + s.Sort + " " + s.S + ")", "Int"} }
-func sliceCap(s Term) Term { return Term{"(cap_" + s.Sort + " " + s.S + ")", "Int"} }
-func sliceNil(s Term) Term { return Term{"(nil_" + s.Sort + " " + s.S + ")", "Bool"} }
+func sliceLen(s Term) Term {
+	if p := mkParts(s); p != nil {
+		return Term{p[2], "Int"}
+	}
+	return Term{"(len_" + s.Sort + " " + s.S + ")", "Int"}
+}
+func sliceCap(s Term) Term {
+	if p := mkParts(s); p != nil {
+		return Term{p[3], "Int"}
+	}
+	return Term{"(cap_" + s.Sort + " " + s.S + ")", "Int"}
+}
+func sliceNil(s Term) Term {
+	if p := mkParts(s); p != nil {
+		return Term{p[4], "Bool"}
+	}
+	return Term{"(nil_" + s.Sort + " " + s.S + ")", "Bool"}
+}
 
 // sliceArrSort records the array sort of each slice sort.
 var sliceArrSort = map[string]string{}
